@@ -102,6 +102,10 @@ def r_vtform(ctx):
         run.undecided('R-VTFORM', f, 'ascent-sum', nd.lineno, 'ascent term %s' % show(s)[:100])
         return
     pos = s[2][0]
+    if is_call(pos, 'numpy.flatnonzero') and len(pos[2]) == 1:
+        pos = ('sub', ('call', ('g', 'numpy.where'), pos[2], ()), ('c', 0))     # flatnonzero(c) is where(c)[0] for 1-D c
+    if pos[0] == 'sub' and pos[2] == ('c', 0) and pos[1][0] == 'call' and pos[1][1][0] == 'attr' and pos[1][1][2] == 'nonzero':
+        pos = ('sub', ('call', ('g', 'numpy.where'), (pos[1][1][1],), ()), ('c', 0))
     offset_ok = pos[0] == 'sub' and pos[2] == ('c', 0) and is_call(pos[1], 'numpy.where', 'numpy.nonzero') and len(pos[1][2]) == 1
     if not offset_ok:
         # sum(where(..)[0] + 1) and friends
